@@ -51,7 +51,9 @@ def mst_scenario(sid, c):
              {"k": "req", "id": 1, "assoc": 1024, "kind": "time", "proc": c["proc"], "tag": {"start": True}}]
     first = []
     if c["proc"] == "nonlan":
-        first.append({"g": 52, "v": 2, "q": 7, "count": 1, "data": "%02x%02x" % (c["pRep"] & 0xFF, c["pRep"] >> 8)})
+        d = "%02x%02x" % (c["pRep"] & 0xFF, c["pRep"] >> 8)
+        first.append({"g": 52, "v": 2, "q": 7, "count": 2, "data": d + d} if c["junk"] == 3 else
+                     {"g": 52, "v": 2, "q": 7, "count": 1, "data": d})
     if c["junk"] == 1:
         first.append(JUNK)
     steps.append({"k": "adv", "dt": c["fwd"] + c["pAct"] + c["back"]})
@@ -61,6 +63,51 @@ def mst_scenario(sid, c):
     steps.append({"k": "rx", "fn": "response", "src": 1024, "hdrs": second, "iin": {"time": bool(c["keep"])}, "tag": {"reply": 2}})
     steps.append({"k": "adv", "dt": 10})
     return {"id": sid, "cfg": master_cfg(c), "steps": steps, "meta": {"c": c, "mode": "mst"}}
+
+
+def lan_scenario(sid, ops):
+    """the harness plays the master towards the real outstation: a history of RECORD_CURRENT_TIME, repetitions,
+    WRITE g50v3 and pauses (ost mode, paused clock)"""
+    import concretize
+    hist, seq, last = [{"k": "conn"}], 0, None
+    for op in ops:
+        if op in ("A1", "A2"):
+            hist.append({"k": "adv", "dt": 20 if op == "A1" else 60000})
+        elif op == "Rr":
+            hist.append(dict(last, rep=True))
+        else:
+            last = {"k": "req", "f": "record" if op == "R" else "wtlast", "seq": seq, "cl": [], "rep": False}
+            seq = (seq + 1) % 16
+            hist.append(last)
+    sc = concretize.scenario(sid, hist, "os2_cap1", 1, unsol=False, meta={"ops": ops, "mode": "lan"})
+    return sc
+
+
+def lan_events(raw, by_id):
+    out, cur, ops, i = [], None, None, 0
+    with open(raw) as f:
+        for line in f:
+            r = json.loads(line)
+            if r.get("k") == "reset":
+                if cur:
+                    out.append(cur)
+                sc = by_id.get(r.get("id"))
+                cur = None if sc is None else {"k": "lan", "id": sc["id"], "ops": []}
+                ops = sc["meta"]["ops"] if sc else None
+                i = -1          # the first step is the connection
+                continue
+            if cur is None:
+                continue
+            if i >= 0 and i < len(ops):
+                wt = -1
+                for cb in r.get("cb", []):
+                    if cb[1] == "app" and cb[2] == "write_time":
+                        wt = num(cb[3])
+                cur["ops"].append({"op": ops[i], "t": r.get("t", 0), "wt": wt})
+            i += 1
+    if cur:
+        out.append(cur)
+    return out
 
 
 KNOWN_RES = ["BadOutstationTimeDelay", "StillNeedsTime", "Overflow", "RejectedByIin2", "UnexpectedResponseHeaders",
@@ -96,11 +143,14 @@ def run(tier, replay=None):
     m = re.search(r"(\d+) states generated, (\d+) distinct states found", out)
     if "No error has been found" not in out:
         raise ToolError("TimeSync.tla violates its own invariants: " + "; ".join(l for l in out.splitlines() if "rror" in l[:60] or "violated" in l)[:500])
-    params = []
+    params, lan_hists = [], []
     for line in out.splitlines():
         mm = re.search(r'<<"SCENARIO", "(.*)">>', line.strip())
         if mm:
             params.append(json.loads(vlib.tla_unescape(mm.group(1))))
+        mm = re.search(r'<<"LAN", "(.*)">>', line.strip())
+        if mm:
+            lan_hists.append(json.loads(vlib.tla_unescape(mm.group(1))))
     total = len(params)
     rnd = random.Random(vlib.seed())
     params.sort(key=lambda p: json.dumps(p["c"], sort_keys=True))
@@ -108,9 +158,14 @@ def run(tier, replay=None):
         small = [p for p in params if max(p["c"]["fwd"], p["c"]["back"]) <= 501]
         big = [p for p in params if max(p["c"]["fwd"], p["c"]["back"]) > 501]
         params = small + rnd.sample(big, min(len(big), 300))
+    lan_replay = None
     if replay:
         with open(replay) as f:
-            params = [{"c": json.load(f)["case"]}]
+            case = json.load(f)["case"]
+        if "lan_ops" in case:
+            params, lan_replay = [], case["lan_ops"]
+        else:
+            params = [{"c": case}]
     pair, mst = [], []
     for i, p in enumerate(params):
         c = p["c"]
@@ -122,6 +177,11 @@ def run(tier, replay=None):
     log(prop, len(pair), "paired scenarios,", len(mst), "scripted-outstation scenarios of", total, "parameter sets")
     praw, ph = vlib.run_harness("pair", pair, "chk_C18/pair") if pair else (None, 0)
     mraw, mh = vlib.run_harness("mst", mst, "chk_C18/mst") if mst else (None, 0)
+    if lan_replay:
+        lan = [lan_scenario("lan_0", lan_replay)]
+    else:
+        lan = [] if replay else [lan_scenario("lan_%d" % i, h) for i, h in enumerate(sorted(lan_hists))]
+    lraw, lh = vlib.run_harness("ost", lan, "chk_C18/lan") if lan else (None, 0)
     by_id = {s["id"]: s for s in pair + mst}
 
     lines = []
@@ -198,20 +258,21 @@ def run(tier, replay=None):
                 e["c"]["room"] = 0
         for k in ("_t0", "_reqs", "_resps", "_tdone"):
             e.pop(k, None)
+    lan_lines = lan_events(lraw, {s["id"]: s for s in lan}) if lraw else []
     normp = os.path.join(wd, "trace.norm.ndjson")
     with open(normp, "w") as f:
-        for e in lines:
+        for e in lines + lan_lines:
             f.write(json.dumps(e, separators=(",", ":")) + "\n")
     verdict = vlib.trace_run("TM_C18.tla", os.path.join(vlib.SPEC, "TM.cfg"), normp, os.path.join(wd, "mon.json"), timeout=3000)
     viols = verdict["viol"]
     rc = 0
     unexplained = []
     for v in viols:
-        e = next((x for x in lines if x["id"] == v["sc"]), {})
-        v["case"] = e.get("c")
+        e = next((x for x in lines + lan_lines if x["id"] == v["sc"]), {})
+        v["case"] = e.get("c") or {"lan_ops": [o["op"] for o in e.get("ops", [])]}
         v["obs"] = {k: e.get(k) for k in ("res", "wrote", "tm", "tmAt", "fwdObs", "backObs", "mode")}
         unexplained.append(v)
-    if ph + mh:
+    if ph + mh + lh:
         unexplained.append({"prop": prop, "reason": "hang", "sc": "?", "line": 0})
     if unexplained:
         rc = 1
@@ -226,13 +287,13 @@ def run(tier, replay=None):
             log("unexplained", u["reason"], u["sc"], u.get("ctx"), json.dumps(u.get("case")), json.dumps(u.get("obs")))
     cov = {"states": int(m.group(2)) if m else 0, "transitions": int(m.group(1)) if m else 0,
            "traces_validated_against_impl": len(lines) - len({v["sc"] for v in viols}),
-           "evaluations": len(lines), "distinct_nontrivial": len({json.dumps(e["c"], sort_keys=True) for e in lines}),
+           "evaluations": len(lines) + len(lan_lines), "distinct_nontrivial": len({json.dumps(e["c"], sort_keys=True) for e in lines}),
            "samples": [pair[0]["meta"], mst[0]["meta"]] if pair and mst else [],
            "rule": "one evaluation = one time synchronisation with one parameter set of MC_TimeSync (procedure, one-way delays, real and reported "
                    "processing delay, distance of the master clock from 2^48-1, NEED_TIME kept, unexpected objects), executed by the real master "
                    "against the real outstation through the delaying proxy (honest sets) and / or against scripted replies (lying or malformed sets)",
            "parameter_sets_enumerated": total, "paired": len(pair), "scripted": len(mst), "monitor_violations": len(viols),
-           "hangs": ph + mh, "unexplained": [{k: u.get(k) for k in ("reason", "sc", "ctx", "case", "obs")} for u in unexplained[:20]],
+           "hangs": ph + mh + lh, "lan_histories": len(lan_lines), "unexplained": [{k: u.get(k) for k in ("reason", "sc", "ctx", "case", "obs")} for u in unexplained[:20]],
            "exhaustive": False}
     vlib.write_evidence(prop, tier, "model_checking", cov,
                         ["delays from a boundary set (0, 1, 2, 7, 500, 501, 65535, 70000 ms), not all of 0..65535+",
